@@ -46,14 +46,14 @@ def run(ck):
         bad = [x for x in cfg.exits_without(f, is_reset, start_block=e.block, start_idx=e.idx + 1) if x.kind != "throw"]
         ck.ob("C04-R1", "onInput/after-onRequest", not bad, e.loc, f, "parser->reset() on every normal path after onRequest" if not bad else
               "a path returns after onRequest without resetting the parser")
-    feeds = [b for b in f.blocks.values() if b.term and b.term.get("k") == "if" and ("c:" + PB + "feed") in (b.term.get("refs") or [])]
+    feeds = lib.result_edges(f, PB + "feed", False)
     ck.require(feeds, "feed() test not found in Handler::onInput")
-    for b in feeds:
-        arm = b.succs[0] if b.term.get("neg") else b.succs[1]
+    for bid, k in feeds:
+        arm = f.blocks[bid].succs[k]
         exits = cfg.exits_without(f, is_reset, start_block=arm)
         # a throw inside the try block lands in a local handler, which is checked below
         bad = [x for x in exits if x.kind != "throw" or not handlers]
-        ck.ob("C04-R1", "onInput/feed-refused", not bad, "%s:%s" % (f.file, b.term.get("l")), f,
+        ck.ob("C04-R1", "onInput/feed-refused", not bad, "%s:%s" % (f.file, f.blocks[bid].term.get("l")), f,
               "refused feed resets the parser or throws into a resetting handler" if not bad else "refused feed leaves without reset")
     ck.require(len(handlers) >= 2, "catch handlers of Handler::onInput not found")
     for hb in handlers:
